@@ -38,7 +38,10 @@ def _view(op, answer):
 
 def _binary(o):
     # one test binary for every GC profile; the ingest harness of the same package is built separately by its owner
-    return Built.test_binary(o, "internal/store", [HARNESS_FILE], "store_gc")
+    # the name carries the tree under test so that a run against a scratch worktree (VERIF_REPO) and one against /repo
+    # do not overwrite each other's binary
+    import hashlib
+    return Built.test_binary(o, "internal/store", [HARNESS_FILE], "store_gc_" + hashlib.sha256(core.REPO.encode()).hexdigest()[:8])
 
 
 def _profile(o, name, test, store, driver):
